@@ -7,6 +7,7 @@ import (
 	"io/ioutil"
 	"os"
 	"path/filepath"
+	"runtime/debug"
 	"strconv"
 	"strings"
 	"sync"
@@ -102,8 +103,49 @@ type c16env struct {
 	extra                map[string]map[string]map[string][]byte
 	check                bool
 	codecChanged         bool
+	held                 []c16held
+	heldMu               sync.Mutex
 	nRestart, nPar, nOps int
 	kinds                map[string]bool
+}
+
+func (e *c16env) hold(op string, v interface{}, enc []byte) {
+	if v == nil {
+		return
+	}
+	e.heldMu.Lock()
+	e.held = append(e.held, c16held{op: op, v: v, want: enc})
+	if len(e.held) > 48 {
+		e.held = e.held[len(e.held)-48:]
+	}
+	e.heldMu.Unlock()
+}
+
+// every value a Load returned earlier must still be the value it was when it was returned,
+// whatever was saved, by whom, and whether the server was closed since
+func (e *c16env) recheck(after string, fail func(sig, msg string)) {
+	e.heldMu.Lock()
+	defer e.heldMu.Unlock()
+	for _, hd := range e.held {
+		func() {
+			defer func() {
+				if r := recover(); r != nil {
+					fail("loaded-value-changed", fmt.Sprintf("the value returned by %q cannot be read any more after %q: %v", c16short(hd.op), c16short(after), r))
+				}
+			}()
+			b, err := network.Marshal(hd.v)
+			if err != nil || !bytes.Equal(b, hd.want) {
+				fail("loaded-value-changed", fmt.Sprintf("the value returned by %q was %s when it was returned and is %s after %q", c16short(hd.op), c16hex(hd.want), c16hex(b), c16short(after)))
+			}
+		}()
+	}
+}
+
+func c16short(s string) string {
+	if len(s) > 160 {
+		return s[:160] + "..."
+	}
+	return s
 }
 
 func c16setRegistered(want []string) error {
@@ -161,9 +203,18 @@ func (e *c16env) stop() {
 	}
 }
 
+// c16hex renders bytes for the line protocol: hex, "-" for the empty string; a trailing run of at
+// least 64 equal bytes is written as <hex of what precedes>+<byte>x<length> (big values)
 func c16hex(b []byte) string {
 	if len(b) == 0 {
 		return "-"
+	}
+	n := 1
+	for n < len(b) && b[len(b)-1-n] == b[len(b)-1] {
+		n++
+	}
+	if n >= 64 {
+		return fmt.Sprintf("%s+%02xx%d", hex.EncodeToString(b[:len(b)-n]), b[len(b)-1], n)
 	}
 	return hex.EncodeToString(b)
 }
@@ -171,6 +222,19 @@ func c16hex(b []byte) string {
 func c16unhex(s string) ([]byte, bool) {
 	if s == "-" {
 		return []byte{}, true
+	}
+	if i := strings.Index(s, "+"); i >= 0 {
+		pre, err := hex.DecodeString(s[:i])
+		rest := strings.Split(s[i+1:], "x")
+		if err != nil || len(rest) != 2 || len(rest[0]) != 2 {
+			return nil, false
+		}
+		bb, err1 := hex.DecodeString(rest[0])
+		n, err2 := strconv.Atoi(rest[1])
+		if err1 != nil || err2 != nil || n < 0 || n > 1<<20 {
+			return nil, false
+		}
+		return append(pre, bytes.Repeat(bb, n)...), true
 	}
 	b, err := hex.DecodeString(s)
 	return b, err == nil
@@ -242,19 +306,26 @@ func c16save(ctx *onet.Context, k, raw []byte, v interface{}) string {
 	return "ok"
 }
 
-func c16load(ctx *onet.Context, k []byte) string {
+func c16load(ctx *onet.Context, k []byte) (string, interface{}, []byte) {
 	v, err := ctx.Load(k)
 	if err != nil {
-		return c16errClass(err)
+		return c16errClass(err), nil, nil
 	}
 	if v == nil {
-		return "none"
+		return "none", nil, nil
 	}
 	b, err := network.Marshal(v)
 	if err != nil {
-		return "err:remarshal"
+		return "err:remarshal", nil, nil
 	}
-	return "v:" + c16hex(b)
+	return "v:" + c16hex(b), v, b
+}
+
+// a value Load returned, kept by the service: it must stay what it was
+type c16held struct {
+	op   string
+	v    interface{}
+	want []byte
 }
 
 func c16raw(ctx *onet.Context, k []byte) string {
@@ -514,7 +585,11 @@ func c16run(res *c16result, mu *sync.Mutex, dir string, class string) {
 		_, ok := e.ctx[svc]
 		return ok && e.srv != nil
 	}
+	debug.SetPanicOnFault(true) // a held value that points into unmapped memory is an observation, not a crash
 	for i, op := range res.ops {
+		if i > 0 && class != "refused" {
+			e.recheck(res.ops[i-1], fail)
+		}
 		tk := strings.Fields(op)
 		if len(tk) < 2 || tk[0] != "c16" {
 			emit("bad-op")
@@ -601,7 +676,10 @@ func c16run(res *c16result, mu *sync.Mutex, dir string, class string) {
 			}
 			var got string
 			if tk[1] == "load" {
-				got = c16load(e.ctx[tk[2]], k)
+				var v interface{}
+				var enc []byte
+				got, v, enc = c16load(e.ctx[tk[2]], k)
+				e.hold(op, v, enc)
 			} else {
 				got = c16raw(e.ctx[tk[2]], k)
 			}
@@ -772,7 +850,10 @@ func c16run(res *c16result, mu *sync.Mutex, dir string, class string) {
 						case "s":
 							results[t][j] = c16save(e.ctx[cl.svc], cl.key, cl.raw, cl.val)
 						case "l":
-							results[t][j] = c16load(e.ctx[cl.svc], cl.key)
+							var v interface{}
+							var enc []byte
+							results[t][j], v, enc = c16load(e.ctx[cl.svc], cl.key)
+							e.hold(op, v, enc)
 						default:
 							results[t][j] = c16raw(e.ctx[cl.svc], cl.key)
 						}
@@ -816,6 +897,11 @@ func c16run(res *c16result, mu *sync.Mutex, dir string, class string) {
 		default:
 			emit("bad-op")
 		}
+	}
+	if len(res.ops) > 0 && class != "refused" {
+		e.recheck(res.ops[len(res.ops)-1], fail)
+		e.stop()
+		e.recheck("closing the server", fail)
 	}
 	var ks []string
 	for _, k := range []string{"save", "savebad", "load", "raw", "savever", "loadver", "addb", "bput", "bget", "bdel", "par"} {
@@ -1037,6 +1123,20 @@ func c16genAll(c *h.Ctx, yield func(*h.Case)) {
 	op("bget c16a %s %s", c16hex([]byte("x")), c16hex([]byte("k")))
 	op("bget c16b %s %s", c16hex([]byte("x")), c16hex([]byte("k")))
 	yield(cs)
+	start("corpus-loaded-value-kept") // seeded change C16-B: Load decoding straight from the database page
+	op("start c16a,c16b")
+	op("addb c16a %s", c16hex([]byte("x")))
+	for j := 0; j < 12; j++ {
+		op("save c16b %s %s", c16hex([]byte(fmt.Sprintf("fill%d", j))), valueOf(&C16Blob{B: bytes.Repeat([]byte{0xb0}, 1500)}))
+	}
+	op("save c16a %s %s", c16hex([]byte("k")), valueOf(&C16Rec{I: 1, S: "one", B: bytes.Repeat([]byte{0xa1}, 1500)}))
+	op("load c16a %s", c16hex([]byte("k")))
+	op("save c16a %s %s", c16hex([]byte("other")), valueOf(&C16Rec{I: 2, S: "two", B: bytes.Repeat([]byte{0xa2}, 1500)}))
+	for j := 0; j < 8; j++ {
+		op("save c16b %s %s", c16hex([]byte("k")), valueOf(&C16Blob{B: bytes.Repeat([]byte{0xb0}, 1500)}))
+	}
+	op("load c16a %s", c16hex([]byte("k")))
+	yield(cs)
 	start("outside-lossless-range") // premise: int64 of magnitude >= 2^62 does not survive the codec
 	op("start c16a,c16b")
 	op("save c16a %s %s", c16hex([]byte("k")), valueOf(&C16Rec{I: 6917529027641081856, S: "big"}))
@@ -1077,6 +1177,52 @@ func c16genAll(c *h.Ctx, yield func(*h.Case)) {
 	}
 	for i := 0; i < c.Pick(400, 5000); i++ {
 		history("collide", append(append([]string{}, c16premise[:2]...), c16collide...), false)
+	}
+	// big values: buckets that are no longer stored inline, pages that are freed and reused
+	// while services keep what they loaded
+	for i := 0; i < c.Pick(60, 500); i++ {
+		start("premise-big-values")
+		svcs := c16premise[:2+r.Intn(2)]
+		op("start %s", strings.Join(svcs, ","))
+		op("addb %s %s", svcs[0], c16hex([]byte("x")))
+		big := func() string {
+			fill := byte(0xa0 + r.Intn(16))
+			n := 1100 + r.Intn(900)
+			if r.Intn(2) == 0 {
+				return valueOf(&C16Blob{B: bytes.Repeat([]byte{fill}, n)})
+			}
+			return valueOf(&C16Rec{I: int64(r.Intn(1000)), S: fmt.Sprintf("big%d", r.Intn(100)), B: bytes.Repeat([]byte{fill}, n)})
+		}
+		keys := [][]byte{[]byte("k"), []byte("key2"), []byte("k3"), []byte("k4")}
+		// the database reaches its working size first
+		for j := 0; j < 6+r.Intn(8); j++ {
+			op("save %s %s %s", svcs[len(svcs)-1], c16hex([]byte(fmt.Sprintf("fill%d", j))), big())
+		}
+		for j := 0; j < 6+r.Intn(14); j++ {
+			s := svcs[r.Intn(len(svcs))]
+			k := keys[r.Intn(len(keys))]
+			switch r.Intn(6) {
+			case 0, 1, 2:
+				op("save %s %s %s", s, c16hex(k), big())
+			case 3:
+				op("save %s %s %s", s, c16hex(k), value())
+			case 4:
+				op("load %s %s", s, c16hex(k))
+			default:
+				op("load %s %s", svcs[0], c16hex(keys[0]))
+			}
+		}
+		if r.Intn(3) == 0 {
+			op("stop")
+			op("start %s", strings.Join(svcs, ","))
+			op("addb %s %s", svcs[0], c16hex([]byte("x")))
+		}
+		for _, s := range svcs {
+			for _, k := range keys {
+				op("load %s %s", s, c16hex(k))
+			}
+		}
+		yield(cs)
 	}
 	// version cells over the whole int32 range and beyond (truncation)
 	start("versions")
